@@ -270,6 +270,42 @@ def rule_r3(chk, db, conf):
                         chk.ok("R3", "name:%s#%d" % (short(b.name), bi), x.loc(bi), nontrivial=False)
 
 
+def rule_r4(chk, db, conf):
+    """one path, one address: where a path function takes (bucket, key), both come from the same address - the request's own bucket and key,
+    or the copy source's - never the bucket of one and the key of the other (an object's bookkeeping would land in another bucket's name
+    space)"""
+    n = 0
+    for b in fscore.fs_bodies(db):
+        for bi, t in b.calls():
+            cb = db.bodies.get(t["callee"].get("resolved") or "") or db.bodies.get(callee_def(t))
+            if cb is None or cb.crate != "s3s_fs" or "PathBuf" not in cb.raw.get("ret", "") or len(t["args"]) < 3:
+                continue
+            # the (bucket, key) pair: the first two string parameters after self
+            strs = [a for a in t["args"][1:] if flow.op_place(a) is not None and "str" in b.locals[flow.op_place(a)["l"]].lower() or
+                    (flow.op_place(a) is not None and "String" in b.locals[flow.op_place(a)["l"]])]
+            if len(strs) < 2:
+                continue
+
+            def origin(op, field):
+                sl = flow.backward(b, op, at=bi)
+                o = set()
+                for a_, f_ in sl.fields:
+                    if f_ == field and a_.endswith("Input"):
+                        o.add("request")
+                    if f_ == field and a_ == "CopySource":
+                        o.add("copy source")
+                return o
+            ob, ok_ = origin(strs[0], "bucket"), origin(strs[1], "key")
+            if not ob or not ok_:
+                continue
+            n += 1
+            mixed = len(ob) == 1 and len(ok_) == 1 and ob != ok_
+            chk.verdict(not mixed, "R4", "%s:%s#%d" % (short(db.root_of(b).name), short(callee_def(t)), n), b.loc(bi),
+                        "%s is given the bucket of the %s and the key of the %s: the path belongs to neither object" %
+                        (short(callee_def(t)), "/".join(sorted(ob)), "/".join(sorted(ok_))))
+    chk.floor("R4", n, 10, "(bucket, key) path constructions in the backend's S3 methods")
+
+
 def run(chk, db, tier):
     conf = fscore.confining_fns(db)
     chk.stats["confining_functions"] = sorted(short(n) for n in conf)
@@ -279,6 +315,8 @@ def run(chk, db, tier):
     chk.guard("R1", rule_r1, db, conf)
     chk.guard("R1", rule_r1b, db, conf)
     chk.guard("R2", rule_r2, db, conf)
+    chk.rule("R4", "one path, one address: a (bucket, key) path is built from the request's own bucket and key or from the copy source's, never mixed")
+    chk.guard("R4", rule_r4, db, conf)
     chk.guard("R3", rule_r3, db, conf)
     # prerequisite: the backend relies on bucket names / keys having passed the adapter's validation in both addressing styles (decided for C12)
     from . import c12
